@@ -45,3 +45,34 @@ package symboldg
 //@ requires g != nil
 //@ ensures result == exists(k, string, hasEdge(g, fromBase, k) && g.edges[fromBase][k].Edge.To.BaseId() == toBase)
 //@ loop 0 invariant forall(k, string, implies(seen(k) && hasEdge(g, fromBase, k), g.edges[fromBase][k].Edge.To.BaseId() != toBase))
+
+// ---- nodes: insertion, lookup, idempotent re-insertion, replacement under a newer file version (C17, C19) ----
+
+//@ func SymbolGraph.addNode props C17,C19,C14
+//@ requires g != nil && n != nil && g.nodes != nil && g.lookupKeys != nil
+//@ modifies elems(g.nodes), elems(g.lookupKeys)
+//@ ensures indom(g.nodes, n.Id.BaseId()) && g.nodes[n.Id.BaseId()] == n && g.lookupKeys[n.Id.BaseId()] == n.Id
+//@ ensures forall(b, string, implies(b != n.Id.BaseId(), indom(g.nodes, b) == old(indom(g.nodes, b)) && g.nodes[b] == old(g.nodes[b])))
+
+//@ func SymbolGraph.Get props C17,C19,C14
+//@ requires g != nil
+//@ ensures result == g.nodes[key.BaseId()]
+
+//@ func SymbolGraph.Exists props C17,C19,C14
+//@ requires g != nil
+//@ ensures result == (indom(g.nodes, key.BaseId()) && g.nodes[key.BaseId()] != nil)
+
+// RemoveNode (recursive cascade over map iterations) is outside the proved part: it may change the whole graph;
+// it reports which node it was asked to remove.
+//@ func SymbolGraph.RemoveNode trusted havocs
+//@ emits nodeRemoved(key.BaseId(), key.FileId)
+
+//@ extern github.com/gopher-fleece/gleece/v2/gast.FileVersion.Equals
+//@ func SymbolGraph.idempotencyGuard props C17,C19,C14 havocs
+//@ requires g != nil
+// declared symbols always carry their file version (createAndAddSymNode stores the version it was given)
+//@ requires implies(decl != nil && version != nil && g.nodes[graphs.declKeyBase(decl, version)] != nil, g.nodes[graphs.declKeyBase(decl, version)].Version != nil)
+//@ mayemit nodeRemoved
+//@ ensures nilargs: implies(decl == nil || version == nil, result2 != nil && result0 == nil)
+//@ ensures same: implies(result0 != nil, result2 == nil && evcount(nodeRemoved) == old(evcount(nodeRemoved)) && result0 == old(g.nodes[result1.BaseId()]))
+//@ ensures replaced: implies(evcount(nodeRemoved) > old(evcount(nodeRemoved)), evcount(nodeRemoved) == old(evcount(nodeRemoved))+1 && old(g.nodes[result1.BaseId()]) != nil && evlast(nodeRemoved, 0) == old(g.nodes[result1.BaseId()].Id.BaseId()) && evlast(nodeRemoved, 1) == old(g.nodes[result1.BaseId()].Id.FileId))
